@@ -6,6 +6,11 @@ props = [json.loads(l)["id"] for l in open(os.path.join(ROOT, "properties.jsonl"
 
 # id -> (category, technique, level text, level note, design ref)
 CHECKS = {
+ "C10": ("fault_enumeration",
+         "runtime monitor: process liveness + control client (both protocols) after each hostile case against the proxy running as a child process (journalled cases; I/O faults injected by a wrapping listener; panics injected through the public callbacks), race detector on in the child",
+         "The proxy is composed through the real flag wiring in a child process (cmd/victim) so that a process-fatal panic ends one batch, not the monitor, and the journalled case is the witness. Enumerated: FIN/RST after every 8th (quick) / every (thorough) client byte of an HTTP/1.1 and an HTTP/2 session; reset/timeout/EOF/short-write/deadline errors at every server-side I/O operation index; a panic in GetConfigForClient, GetCertificate, VerifyConnection, the ConnState hook (each state), a header injector, IsProbeRequest and the request handler, on both protocols, with the round-robin, priority and random write schedulers; a silent stall at 10 protocol steps during which a control client must be served within 4 s. PRNG-driven: pre-handshake byte streams and post-handshake HTTP/2 / HTTP/1.1 byte streams (mutated transcripts, random frames, floods) in batches of 25 with bisection. After every case/batch the process must be alive and a fresh control client must be served on both protocols.",
+         "trusted: cmd/victim (composition + injection points), rig.AcctListener fault injection; a panicking log writer is outside the statement's list of user-supplied code and not injected; liveness is judged by process state and by control requests, not by timing (except the 4 s bound of the stall class)",
+         "DESIGN.md §4 C10"),
  "C11": ("fault_enumeration",
          "runtime monitor: per-connection Close() accounting on a wrapping listener + census of proxy goroutines, after client aborts at enumerated byte offsets, stalls at every protocol step, injected I/O errors at every server-side operation index, and timer windows for the handshake/idle timeouts (flag wiring through VerifNewApp), race detector on",
          "Fault points are enumerated: client FIN/RST after every 8th (quick) / every (thorough) byte of a complete HTTP/1.1 and HTTP/2 client session, a silent stall at 12 protocol steps followed by the client leaving, reset / timeout / EOF / short-write / deadline errors at every server-side I/O operation index of both sessions. After each group every accepted connection must have been Close()d and the number of proxy goroutines must be back at the baseline (bounded-progress restatement of 'eventually', 5 s bound, observed ~1 ms). Stalled handshakes and idle connections of both protocols must be cut within [0.8 T, T + max(3 s, 3 T)] of the configured timeout, for 1 (quick) / 3 (thorough) settings.",
